@@ -206,10 +206,11 @@ class SensingAgent(Agent):
         Args:
             ephemeris (:class:`._EphemerisMixin`): data object to update this SensingAgent's state with
         """
-        self.eci_state = array(ephemeris.eci)
         self._time = JulianDate(ephemeris.julian_date).convertToScenarioTime(
             self.julian_date_start,
         )
+        # [NOTE]: set the state after the time: the setter derives the ECEF/LLA views at the current epoch
+        self.eci_state = array(ephemeris.eci)
 
     @property
     def eci_state(self) -> ndarray:
